@@ -69,6 +69,28 @@ pub fn proportion_case(c: &Case, obs: &mut Obs) -> PResult {
         }
     }
     obs.evals((n + 1) as u64);
+    // the mathematical Wilson construction at the same n, level and kind (own normal quantile, closed form):
+    // the crate's coverage may not dip more than 0.01 below the construction's own worst dip, nor may its mean
+    // over p differ from the construction's by more than 5e-4 (second, sharper documented law; see DESIGN C12)
+    let z = crate::meanref::crit_z(&c.conf).c;
+    let reference: Vec<Option<(f64, f64)>> = (0..=n)
+        .map(|k| {
+            if k < 2 || n - k < 2 {
+                return None;
+            }
+            let (nf, kf, ff) = (n as f64, k as f64, (n - k) as f64);
+            let z2 = z * z;
+            let center = (kf + z2 / 2.0) / (nf + z2);
+            let span = z / (nf + z2) * (kf * ff / nf + z2 / 4.0).sqrt();
+            Some(match c.conf.kind {
+                0 => (center - span.abs(), center + span.abs()),
+                1 => (center - span, 1.0),
+                _ => (0.0, center + span),
+            })
+        })
+        .collect();
+    let (mut rsum_hi, mut rsum_lo) = (0.0, 0.0);
+    let mut rworst = f64::INFINITY;
     let lo_p = 10.0 / n as f64;
     let hi_p = 1.0 - lo_p;
     if !(lo_p < hi_p) {
@@ -87,6 +109,16 @@ pub fn proportion_case(c: &Case, obs: &mut Obs) -> PResult {
                 (a <= p && p <= b, near)
             }
         });
+        let (rh, rl) = cover(&pmf, |k| match reference[k] {
+            None => (false, false),
+            Some((a, b)) => {
+                let near = (p - a).abs() <= NEAR || (p - b).abs() <= NEAR;
+                (a <= p && p <= b, near)
+            }
+        });
+        rsum_hi += rh;
+        rsum_lo += rl;
+        rworst = rworst.min(rl);
         obs.eval();
         sum_hi += ch;
         sum_lo += cl;
@@ -107,6 +139,11 @@ pub fn proportion_case(c: &Case, obs: &mut Obs) -> PResult {
     let floor = level - prop_min_slack(level);
     obs.headroom(&format!("proportion/min/{kn}"), (level - worst_min.0).max(0.0) / prop_min_slack(level), || json!({"n": n, "conf": c.conf, "min_coverage": worst_min.0, "at_p": worst_min.1}));
     ensure!(worst_min.0 >= floor, format!("C12/proportion/min_coverage/{kn}"), "n={n}, {:?}: coverage {:.6} at p={:.6} is below the documented floor {floor:.4}", c.conf, worst_min.0, worst_min.1);
+    // against the construction
+    let (rmean_hi, rmean_lo) = (rsum_hi / P_POINTS as f64, rsum_lo / P_POINTS as f64);
+    ensure!(worst_min.0 >= rworst - 0.01, format!("C12/proportion/min_vs_construction/{kn}"), "n={n}, {:?}: coverage dips to {:.5} at p={:.6}; the exact Wilson construction never goes below {rworst:.5} at this n (allowed 0.01 below that)", c.conf, worst_min.0, worst_min.1);
+    ensure!(mean_hi >= rmean_lo - 5e-4 && mean_lo <= rmean_hi + 5e-4, format!("C12/proportion/mean_vs_construction/{kn}"), "n={n}, {:?}: mean coverage {mean_hi:.6} differs from that of the exact Wilson construction {rmean_lo:.6} by more than 5e-4", c.conf);
+    obs.headroom(&format!("proportion/min_vs_construction/{kn}"), (rworst - worst_min.0).max(0.0) / 0.01, || json!({"n": n, "conf": c.conf, "min_coverage": worst_min.0, "construction_min": rworst}));
     obs.class(&format!("proportion/{kn}/L{level}"));
     if obs.wants_sample(&format!("proportion/{kn}")) {
         obs.sample(&format!("proportion/{kn}"), || json!({"n": n, "conf": c.conf, "mean_coverage": mean_hi, "min_coverage": worst_min.0, "min_at_p": worst_min.1, "p_points": P_POINTS}));
@@ -206,6 +243,7 @@ pub fn run(run: &mut Run) {
         run.require_class(&format!("quantile/{k}/L0.8"));
     }
     run.assumptions.push("slack laws of DESIGN C12 (mean |cov-L| <= 0.0015+0.08/n, floor L-(0.45(1-L)+0.015); quantile |cov-L| <= 0.6/sqrt(n q (1-q)), mean <= 0.55/sqrt(n)+0.002), derived from the mathematical Wilson construction, not from the crate".into());
+    run.assumptions.push("second law (sharper, computed from the mathematical construction at run time with the harness' own quantile): min coverage >= construction's min - 0.01 and |mean - construction's mean| <= 5e-4".into());
     run.assumptions.push("outcomes for which the crate returns an error count as misses; a grid point within 1e-9 of a bound is evaluated both ways and the favourable value is compared".into());
 }
 
